@@ -22,12 +22,16 @@ fn gen_history(g: &mut Gen, cfg: &PicCfg, mode: Mode, version: u8, size: Size, a
         return v;
     }
     let first = gen_intra_pic_with(g, cfg, mode, version, size);
-    let like = first.hdr.clone();
+    let mut like = first.hdr.clone();
     v.push(first);
     for _ in 1..n {
         let k = if mode == Mode::Sorenson { g.weighted(&[1, 5, 3]) } else { g.weighted(&[1, 6]) };
         v.push(match k {
-            0 => gen_intra_pic_with(g, cfg, mode, version, size),
+            0 => {
+                let i = gen_intra_pic_with(g, cfg, mode, version, size);
+                like = i.hdr.clone();
+                i
+            }
             1 => gen_inter_pic(g, cfg, &like, PicType::P, allow_truncation),
             _ => gen_inter_pic(g, cfg, &like, PicType::D, allow_truncation),
         });
@@ -47,6 +51,12 @@ fn triple_case(g: &mut Gen, cfg: &PicCfg) -> Verdict {
     let hist = gen_history(g, cfg, mode, version, size, !in_stream);
     let hist_bytes: Vec<Vec<u8>> = hist.iter().map(encode_pic).collect();
     let have_ref = !hist.is_empty();
+    // pictures after the history follow its most recent intra picture (size, and the modes a
+    // header that restates nothing inherits)
+    let like = match hist.iter().rev().find(|p| p.hdr.ptype == PicType::I) {
+        Some(p) => p.hdr.clone(),
+        None => like,
+    };
     // the failing input
     let kinds: &[BadKind] = if mode == Mode::Sorenson { &BAD_KINDS_SORENSON } else { &BAD_KINDS_STANDARD };
     let use_noref = !have_ref && g.chance(1, 4);
@@ -74,8 +84,10 @@ fn triple_case(g: &mut Gen, cfg: &PicCfg) -> Verdict {
         }
         cont.push(gen_inter_pic(g, cfg, &like, PicType::P, false));
     } else {
-        cont.push(gen_intra_pic_with(g, cfg, mode, version, size));
-        cont.push(gen_inter_pic(g, cfg, &like, PicType::P, false));
+        let i = gen_intra_pic_with(g, cfg, mode, version, size);
+        let ilike = i.hdr.clone();
+        cont.push(i);
+        cont.push(gen_inter_pic(g, cfg, &ilike, PicType::P, false));
     }
     let cont_bytes: Vec<Vec<u8>> = cont.iter().map(encode_pic).collect();
     g.describe(|| {
@@ -458,6 +470,94 @@ fn split_cfg() -> PicCfg {
     PicCfg { max_dim: 48, max_fixed_mbs: 0, budget: 300, extreme_aspect: false, allow_standard: true, ..PicCfg::quick() }
 }
 
+/// A stream of valid pictures through ONE reader whose source fails transiently now and then
+/// (WouldBlock / TimedOut / Other, as non-blocking pipes and sockets do). A decode call that hits
+/// such a failure returns an error; it must leave the decoder as it was, and the same call
+/// repeated must carry on as if nothing had happened: picture for picture the results of the
+/// same stream from a plain slice.
+fn transient_case(g: &mut Gen, cfg: &PicCfg) -> Verdict {
+    let pics = super::c15::gen_sequence(g, cfg, 4);
+    let mode = pics[0].hdr.mode;
+    let encoded: Vec<Vec<u8>> = pics.iter().map(encode_pic).collect();
+    let stream: Vec<u8> = encoded.iter().flatten().copied().collect();
+    let chunk = g.range(1, 9) as usize;
+    let schedule: Vec<u8> = {
+        // mostly deliveries; a few interruptions; one to three transient failures per cycle
+        let n = g.range(3, 60) as usize;
+        let mut v: Vec<u8> = (0..n).map(|_| *g.pick(&[0u8, 0, 0, 0, 1, 1, 1, 2])).collect();
+        for _ in 0..g.range(1, 3) {
+            let k = g.below(n as u32) as usize;
+            v[k] = 3;
+        }
+        v
+    };
+    let scal = g.bool();
+    g.describe(|| json!({"pictures": pics.iter().map(describe_pic).collect::<Vec<_>>(), "bytes_per_read": chunk, "schedule (0,1 deliver; 2 Interrupted; 3 transient failure)": schedule}));
+    // twin: plain slice source
+    let mut twin = H263State::new(options_scal(mode, scal));
+    let mut rt = H263Reader::from_source(&stream[..]);
+    let mut st = H263State::new(options_scal(mode, scal));
+    let src = Flaky::new(&stream, chunk, schedule.clone(), true);
+    let transients = src.transients.clone();
+    let mut rf = H263Reader::from_source(src);
+    let mut failures = 0usize;
+    for i in 0..encoded.len() {
+        let want = decode_call(&mut twin, &mut rt);
+        if !want.is_ok() {
+            return Verdict::fail(format!("picture {} of a valid stream was not decoded from a slice: {}", i, want.short()));
+        }
+        let want_digest = last_digest(&twin);
+        let mut tries = 0;
+        loop {
+            let before = last_digest(&st);
+            let seen = transients.get();
+            let o = decode_call(&mut st, &mut rf);
+            match o {
+                Outcome::Ok => break,
+                Outcome::Panic(p) => return Verdict::fail(format!("decode call {} panicked over a source with transient failures: {}", i, p)),
+                Outcome::Err(e) => {
+                    if transients.get() == seen {
+                        return Verdict::fail(format!(
+                            "decode call for picture {} failed ({}) although its source delivered every byte it was asked for ({} earlier transient failures, all followed by a successful retry)",
+                            i, e, failures
+                        ));
+                    }
+                    failures += 1;
+                    if last_digest(&st) != before {
+                        return Verdict::fail(format!("decode call for picture {} failed on a transient source failure ({}) and changed the most recent picture", i, e));
+                    }
+                    tries += 1;
+                    if tries > 10_000 {
+                        return Verdict::fail(format!("picture {}: still failing after 10000 repeated calls although the source delivers data between its failures", i));
+                    }
+                }
+            }
+        }
+        if last_digest(&st) != want_digest {
+            return Verdict::fail(format!(
+                "picture {} decoded after {} failed-and-repeated calls differs from the same stream read from a slice ({:016x} vs {:016x})",
+                i,
+                failures,
+                last_digest(&st),
+                want_digest
+            ));
+        }
+    }
+    let rest = drain_bits(&mut rf);
+    let rest_t = drain_bits(&mut rt);
+    if rest != rest_t {
+        return Verdict::fail(format!("after the stream the reader over the failing source holds {} bits, the slice reader {}", rest.len(), rest_t.len()));
+    }
+    let mut l: Labels = vec![mode_label(&pics[0].hdr)];
+    if failures > 0 {
+        l.push("a call failed on a transient source failure and was repeated");
+    }
+    if failures >= 3 {
+        l.push("three or more failed calls in one stream");
+    }
+    Verdict::pass_l(failures > 0, fnv64(&stream) ^ ((chunk as u64) << 56) ^ fnv64(&schedule), l)
+}
+
 pub fn run(ctx: &Ctx) -> i32 {
     let cfg = cfg_for(ctx.tier);
     let mut reports = vec![super::regression_suite(ctx)];
@@ -468,11 +568,14 @@ pub fn run(ctx: &Ctx) -> i32 {
     reports.push(tape_suite(ctx, "all_split_points", scases, 2048, &move |g| split_case(g, &scfg)));
     let lcases = ctx.tier.pick(400u64, 4_000u64);
     reports.push(tape_suite(ctx, "large_failing_pictures", lcases, 512, &large_failure_case));
+    let tcases = ctx.tier.pick(6_000u64, 200_000u64);
+    let tcfg = PicCfg { max_dim: 64, max_fixed_mbs: 99, budget: 300, extreme_aspect: false, ..cfg_for(ctx.tier) };
+    reports.push(tape_suite(ctx, "transient_source_failures", tcases, 4096, &move |g| transient_case(g, &tcfg)));
     finish(
         ctx,
         reports,
         Summary {
-            rule: "history_failure_continuation: (history of 0..3 accepted pictures) x (failing input of every kind - no start code, truncated header, PTYPE markers, reserved type/size, invalid MCBPC/MVD/INTRADC/short code, escape level 0, truncation inside a block, prediction without reference - placed after 0..12 good macroblocks, in its own reader or behind the history in one reader) x (valid continuation). Oracle: most-recent-picture digest unchanged; draining the reader re-delivers exactly the source bits from its earlier position; continuation decodes identically on a twin decoder that never saw the failing input. all_split_points: a valid picture cut at EVERY byte boundary through a growable source; a prefix call that fails for lack of data must leave the state unchanged and, repeated after the rest is appended, equal the all-at-once decode, as must the next picture of the stream. Non-trivial = failure past the header or after accepted pictures (first suite), >= 1 end-of-data failure (second); distinct by bytes.",
+            rule: "history_failure_continuation: (history of 0..3 accepted pictures) x (failing input of every kind - no start code, truncated header, PTYPE markers, reserved type/size, invalid MCBPC/MVD/INTRADC/short code, escape level 0, truncation inside a block, prediction without reference - placed after 0..12 good macroblocks, in its own reader or behind the history in one reader) x (valid continuation). Oracle: most-recent-picture digest unchanged; draining the reader re-delivers exactly the source bits from its earlier position; continuation decodes identically on a twin decoder that never saw the failing input. all_split_points: a valid picture cut at EVERY byte boundary through a growable source; a prefix call that fails for lack of data must leave the state unchanged and, repeated after the rest is appended, equal the all-at-once decode, as must the next picture of the stream. transient_source_failures: a stream of valid pictures through one reader whose Read source reports WouldBlock / TimedOut / Other on some calls (and Interrupted on others): a call failing that way leaves the most recent picture unchanged, and the calls repeated give, picture for picture, the results of the same stream read from a slice. Non-trivial = failure past the header or after accepted pictures (first suite), >= 1 end-of-data failure (second); distinct by bytes.",
             assumptions: vec!["prefix calls that succeed (end of data between macroblocks legitimately ends a picture) are classified, not judged; every failing prefix call is judged, whatever error it reports".into()],
             exhaustive: false,
             extra: Map::new(),
@@ -487,6 +590,7 @@ pub fn replay(suite: &str, case: &Value) -> Option<Verdict> {
         "history_failure_continuation" => Some(triple_case(&mut Gen::new(&tape), &cfg_for(tier))),
         "all_split_points" => Some(split_case(&mut Gen::new(&tape), &split_cfg())),
         "large_failing_pictures" => Some(large_failure_case(&mut Gen::new(&tape))),
+        "transient_source_failures" => Some(transient_case(&mut Gen::new(&tape), &PicCfg { max_dim: 64, max_fixed_mbs: 99, budget: 300, extreme_aspect: false, ..cfg_for(tier) })),
         _ => None,
     }
 }
